@@ -128,6 +128,8 @@ type Gen struct {
 	callOrd     map[string]int
 	usedCallAssumes map[*Clause]bool
 	preCallOrd  map[string]int
+	callStates  map[string][]*State // states just before each call, by callee (recorded when the contract uses atcall)
+	wantCallSt  bool
 	sentinels   map[*Term]bool
 	defers      []deferred
 	retVals     []retPoint
@@ -201,6 +203,8 @@ func (g *Gen) reset() {
 	g.mergeCases = map[*Term][]*mergeCase{}
 	g.usedCallAssumes = map[*Clause]bool{}
 	g.preCallOrd = map[string]int{}
+	g.callStates = map[string][]*State{}
+	g.wantCallSt = g.C != nil && g.C.UsesAtCall
 	g.callRes = nil
 	g.callResOrd = nil
 	g.sentinels = nil
@@ -445,6 +449,10 @@ func (g *Gen) havocAllExcept(st *State, why string, keep func(string) bool) {
 			continue
 		}
 		if keep != nil && keep(n) {
+			continue
+		}
+		if n == "O:ghost.chancap" {
+			// the capacity of a channel never changes after make
 			continue
 		}
 		st.Heap[n] = g.fresh("hv:"+n, g.universe[n])
@@ -1502,7 +1510,7 @@ func (g *Gen) loopHead(b *ssa.BasicBlock, l *Loop, st *State, fwd []*ssa.BasicBl
 	}
 	for _, n := range g.uniOrder {
 		if star || comps[n] {
-			if strings.HasPrefix(n, "G:!") {
+			if strings.HasPrefix(n, "G:!") || n == "O:ghost.chancap" {
 				continue
 			}
 			hv := Const(fmt.Sprintf("%s!H:%s@loop%d", g.prefix, n, l.Ordinal), g.universe[n])
